@@ -34,7 +34,7 @@ def placed_last(V0, H1, s):
 
 @contract('mosromgr.mostypes.StoryMove.merge')
 class StoryMoveMerge(MergeContract):
-    props = ('C01', 'C03', 'C05', 'C06', 'C07', 'C12', 'C13', 'C14')
+    props = ('C01', 'C03', 'C05', 'C06', 'C07', 'C12', 'C13', 'C14', 'C15')
     cls_name = 'StoryMove'
     base_tag_name = 'roStoryMove'
     frame = 'base'
@@ -128,7 +128,7 @@ class StoryInsertLoop(InsertCopies):
 
 @contract('mosromgr.mostypes.StoryAppend.merge')
 class StoryAppendMerge(CarriedStories, MergeContract):
-    props = ('C01', 'C03', 'C04', 'C05', 'C06', 'C07', 'C12', 'C13', 'C14')
+    props = ('C01', 'C03', 'C04', 'C05', 'C06', 'C07', 'C12', 'C13', 'C14', 'C15')
     cls_name = 'StoryAppend'
     base_tag_name = 'roStoryAppend'
     frame = 'base'
@@ -204,7 +204,7 @@ class DeleteStoriesContract(MergeContract):
 
 @contract('mosromgr.mostypes.StoryDelete.merge')
 class StoryDeleteMerge(DeleteStoriesContract):
-    props = ('C01', 'C03', 'C05', 'C06', 'C07', 'C12', 'C13', 'C14')
+    props = ('C01', 'C03', 'C05', 'C06', 'C07', 'C12', 'C13', 'C14', 'C15')
     cls_name = 'StoryDelete'
     base_tag_name = 'roStoryDelete'
 
@@ -354,7 +354,7 @@ class InsertStoriesContract(CarriedStories, MergeContract):
 
 @contract('mosromgr.mostypes.StoryInsert.merge')
 class StoryInsertMerge(InsertStoriesContract):
-    props = ('C01', 'C03', 'C04', 'C05', 'C06', 'C07', 'C12', 'C13', 'C14')
+    props = ('C01', 'C03', 'C04', 'C05', 'C06', 'C07', 'C12', 'C13', 'C14', 'C15')
     cls_name = 'StoryInsert'
     base_tag_name = 'roStoryInsert'
 
@@ -368,7 +368,7 @@ class StoryInsertMerge(InsertStoriesContract):
 # ------------------------------------------------------------------ roElementAction DELETE (stories)
 @contract('mosromgr.mostypes.EAStoryDelete.merge')
 class EAStoryDeleteMerge(DeleteStoriesContract):
-    props = ('C01', 'C03', 'C05', 'C06', 'C07', 'C12', 'C13', 'C14')
+    props = ('C01', 'C03', 'C05', 'C06', 'C07', 'C12', 'C13', 'C14', 'C15')
     cls_name = 'EAStoryDelete'
     base_tag_name = 'roElementAction'
 
@@ -444,7 +444,7 @@ class ReplaceStoriesContract(CarriedStories, MergeContract):
 
 @contract('mosromgr.mostypes.StoryReplace.merge')
 class StoryReplaceMerge(ReplaceStoriesContract):
-    props = ('C01', 'C03', 'C04', 'C05', 'C06', 'C07', 'C12', 'C13', 'C14')
+    props = ('C01', 'C03', 'C04', 'C05', 'C06', 'C07', 'C12', 'C13', 'C14', 'C15')
     cls_name = 'StoryReplace'
     base_tag_name = 'roStoryReplace'
 
@@ -468,7 +468,7 @@ class EATarget:
 
 @contract('mosromgr.mostypes.EAStoryReplace.merge')
 class EAStoryReplaceMerge(EATarget, ReplaceStoriesContract):
-    props = ('C01', 'C03', 'C04', 'C05', 'C06', 'C07', 'C12', 'C13', 'C14')
+    props = ('C01', 'C03', 'C04', 'C05', 'C06', 'C07', 'C12', 'C13', 'C14', 'C15')
     cls_name = 'EAStoryReplace'
     base_tag_name = 'roElementAction'
 
@@ -482,7 +482,7 @@ class EAStoryReplaceMerge(EATarget, ReplaceStoriesContract):
 
 @contract('mosromgr.mostypes.EAStoryInsert.merge')
 class EAStoryInsertMerge(EATarget, InsertStoriesContract):
-    props = ('C01', 'C03', 'C04', 'C05', 'C06', 'C07', 'C12', 'C13', 'C14')
+    props = ('C01', 'C03', 'C04', 'C05', 'C06', 'C07', 'C12', 'C13', 'C14', 'C15')
     cls_name = 'EAStoryInsert'
     base_tag_name = 'roElementAction'
     blank_target_means_end = True
@@ -501,7 +501,7 @@ class EAStoryInsertMerge(EATarget, InsertStoriesContract):
 # ------------------------------------------------------------------ roElementAction SWAP (stories)
 @contract('mosromgr.mostypes.EAStorySwap.merge')
 class EAStorySwapMerge(MergeContract):
-    props = ('C01', 'C03', 'C05', 'C06', 'C07', 'C12', 'C13', 'C14')
+    props = ('C01', 'C03', 'C05', 'C06', 'C07', 'C12', 'C13', 'C14', 'C15')
     cls_name = 'EAStorySwap'
     base_tag_name = 'roElementAction'
     frame = 'base'
@@ -617,7 +617,7 @@ class ConvertStorySend(Contract):
 
 @contract('mosromgr.mostypes.StorySend.merge')
 class StorySendMerge(MergeContract):
-    props = ('C01', 'C03', 'C04', 'C05', 'C06', 'C07', 'C12', 'C13', 'C14')
+    props = ('C01', 'C03', 'C04', 'C05', 'C06', 'C07', 'C12', 'C13', 'C14', 'C15')
     cls_name = 'StorySend'
     base_tag_name = 'roStorySend'
     frame = 'base'
@@ -710,7 +710,7 @@ class MoveContract(MoveLoops, MergeContract):
 
 @contract('mosromgr.mostypes.EAStoryMove.merge')
 class EAStoryMoveMerge(MoveContract):
-    props = ('C01', 'C03', 'C05', 'C06', 'C07', 'C12', 'C13', 'C14')
+    props = ('C01', 'C03', 'C05', 'C06', 'C07', 'C12', 'C13', 'C14', 'C15')
     cls_name = 'EAStoryMove'
     base_tag_name = 'roElementAction'
     frame = 'base'
